@@ -145,19 +145,23 @@ def mwProcessSimulatedOrders (w : World) (mid : Nat) : World :=
     let live := m.live.map w.order!
     if live.isEmpty then w else w.matchOrders mid (sortOrders live) true
 
+/-- the REMOVED runners of a book that are not yet in `known` (the market's removal list):
+    returns (updated list, newly detected removals in book order) -/
+def detectRemovals (runners : List Runner) (known : List (Nat × Rat × Option Rat)) :
+    List (Nat × Rat × Option Rat) × List (Nat × Rat × Option Rat) :=
+  runners.foldl (fun (acc : List (Nat × Rat × Option Rat) × List (Nat × Rat × Option Rat)) r =>
+    if r.status = .removed then
+      if acc.1.contains (r.sel, r.hc, r.af) then acc
+      else (acc.1 ++ [(r.sel, r.hc, r.af)], acc.2 ++ [(r.sel, r.hc, r.af)])
+    else acc) (known, [])
+
 /-- `SimulatedMiddleware.__call__(market)` -/
 def simulatedMiddleware (w : World) (mid : Nat) : World :=
   let m := w.market! mid
   let book := m.book.getD {}
-  -- analytics for ACTIVE runners, detection of new removals (instance-wide de-duplication list)
-  let (as, removals, newRemovals) := book.runners.foldl
-    (fun (acc : List Analytics × List (Nat × Rat × Option Rat) × List (Nat × Rat × Option Rat)) r =>
-      let (as, rem, nw) := acc
-      if r.status = .active then (processRunner as r, rem, nw)
-      else if r.status = .removed then
-        let key := (r.sel, r.hc, r.af)
-        if rem.contains key then (as, rem, nw) else (as, rem ++ [key], nw ++ [key])
-      else (as, rem, nw)) (m.analytics, m.removals, [])
+  -- analytics for ACTIVE runners; detection of new removals against the market's own list
+  let as := book.runners.foldl (fun as r => if r.status = .active then processRunner as r else as) m.analytics
+  let (removals, newRemovals) := detectRemovals book.runners m.removals
   let w := { w with removals := w.removals ++ newRemovals }
   let w := w.modifyMarket mid fun m => { m with analytics := as, hasAnalytics := true, removals := removals }
   let w := newRemovals.foldl (fun w k => w.processRunnerRemoval mid k.1 k.2.1 k.2.2) w
